@@ -36,7 +36,8 @@ def gen_geom(rng, tier, upper=False):
         for p in parts:
             if rng.chance(0.35):
                 p['uninit_up'] = [[rng.pick([3, 3, 2]), rng.randrange(8)] for _ in range(rng.pick([1, 1, 2]))]
-    return {'kind': 'disa' if kind.startswith('disa') else 'diff', 'active': rng.getrandbits(1), 'parts': parts,
+    return {'desc_pad': rng.pick([0, 0, 0, 4, 0x14]),
+            'kind': 'disa' if kind.startswith('disa') else 'diff', 'active': rng.getrandbits(1), 'parts': parts,
             'seed': rng.getrandbits(32)}
 
 
@@ -46,7 +47,7 @@ def build(geom):
     datas = [rng.rbytes(p['size']) for p in geom['parts']]
     if geom['kind'] == 'diff':
         p = geom['parts'][0]
-        f, infos = savebuild.build_diff(rng, datas[0], active=geom['active'], ivfc_log2=tuple(p['ivfc_log2']),
+        f, infos = savebuild.build_diff(rng, datas[0], active=geom['active'], desc_pad=geom.get('desc_pad', 0), ivfc_log2=tuple(p['ivfc_log2']),
                                         dpfs_log2=tuple(p['dpfs_log2']), external=bool(p['external']), selector=p['selector'],
                                         uninit_blocks=tuple(p['uninit']), uninit_up=tuple(tuple(x) for x in p.get('uninit_up', ())))
         return f, infos
